@@ -61,22 +61,29 @@ func DriveC13(t *tr.W, thorough bool) {
 		addrs []string
 		peers []Behaviour
 		how   string // direct: ChainService.BanPeer(addr of peer 0) ; lie: peer 0 serves a false filter header
+		hold  int    // 1+index of a peer that sits on its version handshake until the ban is in place (0: none)
 	}
 	vs := []variant{
-		{"same-ip-direct", []string{"10.0.0.5:18444", "10.0.0.5:18445"}, []Behaviour{honest(), honest()}, "direct"},
-		{"other-ip-direct", []string{"10.0.0.5:18444", "10.0.0.6:18444"}, []Behaviour{honest(), honest()}, "direct"},
+		{"same-ip-direct", []string{"10.0.0.5:18444", "10.0.0.5:18445"}, []Behaviour{honest(), honest()}, "direct", 0},
+		{"other-ip-direct", []string{"10.0.0.5:18444", "10.0.0.6:18444"}, []Behaviour{honest(), honest()}, "direct", 0},
 		{"same-ip-lie", []string{"10.0.0.5:18444", "10.0.0.5:18445", "10.0.0.7:18444"},
-			[]Behaviour{{Kind: "liarCFHeaders", H: 1 << 20, Variant: "inconsistent"}, honest(), honest()}, "lie"},
+			[]Behaviour{{Kind: "liarCFHeaders", H: 1 << 20, Variant: "inconsistent"}, honest(), honest()}, "lie", 0},
+		// a second connection to the banned IP is still in its version handshake when the first one is banned
+		// (directly / for a lie) and completes it afterwards: handleAddPeerMsg must turn it away
+		{"handshake-race-direct", []string{"10.0.0.5:18444", "10.0.0.7:18444", "10.0.0.5:18445"},
+			[]Behaviour{honest(), honest(), honest()}, "direct", 3},
+		{"handshake-race-lie", []string{"10.0.0.5:18444", "10.0.0.7:18444", "10.0.0.5:18445"},
+			[]Behaviour{{Kind: "liarCFHeaders", H: 1 << 20, Variant: "inconsistent"}, honest(), honest()}, "lie", 3},
 		// a peer offering exactly one of WITNESS / CF (both variants, first and second to connect): it must be
 		// banned, dropped and never asked anything
-		{"lacks-cf-first", nil, []Behaviour{{Kind: "noServices", Variant: "cf"}, honest()}, "services"},
-		{"lacks-witness-first", nil, []Behaviour{{Kind: "noServices", Variant: "witness"}, honest()}, "services"},
-		{"lacks-cf-second", nil, []Behaviour{honest(), {Kind: "noServices", Variant: "cf"}}, "services"},
-		{"lacks-witness-second", nil, []Behaviour{honest(), {Kind: "noServices", Variant: "witness"}}, "services"},
+		{"lacks-cf-first", nil, []Behaviour{{Kind: "noServices", Variant: "cf"}, honest()}, "services", 0},
+		{"lacks-witness-first", nil, []Behaviour{{Kind: "noServices", Variant: "witness"}, honest()}, "services", 0},
+		{"lacks-cf-second", nil, []Behaviour{honest(), {Kind: "noServices", Variant: "cf"}}, "services", 0},
+		{"lacks-witness-second", nil, []Behaviour{honest(), {Kind: "noServices", Variant: "witness"}}, "services", 0},
 	}
 	for _, v := range vs {
 		l := 20 + rng.Intn(20)
-		sc := Scenario{Name: v.name, Len: l, Peers: v.peers, Addrs: v.addrs, Barrier: true}
+		sc := Scenario{Name: v.name, Len: l, Peers: v.peers, Addrs: v.addrs, Barrier: v.hold == 0}
 		if v.how == "lie" {
 			sc.Peers[0].H = l + 1
 		}
@@ -87,12 +94,23 @@ func DriveC13(t *tr.W, thorough bool) {
 			continue
 		}
 		peerLines(t, s)
+		var held *Peer
+		if v.hold > 0 {
+			held = s.Peers[v.hold-1]
+			held.HoldGate = make(chan struct{})
+		}
 		if err := s.Start(); err != nil {
 			t.Op("start", "err "+err.Error())
 			s.Cleanup()
 			continue
 		}
 		allIn := func(o Obs) bool { return s.converged(o) && len(o.Conn) == len(s.Peers) }
+		if held != nil {
+			// everybody else is in, the held peer's connection is up and waits in its handshake
+			allIn = func(o Obs) bool {
+				return s.converged(o) && len(o.Conn) == len(s.Peers)-1 && atomic.LoadInt32(&held.Held) == 1
+			}
+		}
 		if v.how == "services" {
 			// every peer has had its turn, the full-service peers are in, the others banned and out
 			allIn = func(o Obs) bool {
@@ -131,6 +149,18 @@ func DriveC13(t *tr.W, thorough bool) {
 			return len(o.Banned) > 0
 		}
 		s.waitFor(1500*time.Millisecond, clean)
+		if held != nil {
+			// the ban is in place: the held connection now finishes its handshake
+			isHeld := atomic.LoadInt32(&held.Held) == 1
+			close(held.HoldGate)
+			t.Op(fmt.Sprintf("release %d", held.Idx), map[bool]string{true: "held", false: "not-held"}[isHeld])
+			dl := time.Now().Add(2 * time.Second)
+			for time.Now().Before(dl) && atomic.LoadInt32(&held.Handshakes) == 0 {
+				time.Sleep(10 * time.Millisecond)
+			}
+			s.waitFor(500*time.Millisecond, func(Obs) bool { return false })
+			t.Hit("c13.handshake-race")
+		}
 		if v.how == "services" {
 			// give a kept peer the time to be asked something
 			s.waitFor(300*time.Millisecond, func(Obs) bool { return false })
